@@ -20,6 +20,12 @@ VARIABLES tid, l, reg, nrej
 Tr == TLCGet(1)[tid]
 Empty == [t |-> "empty", abs |-> <<>>]
 
+LowerC(c) == IF c \in 65..90 THEN c + 32 ELSE c
+ModeOf(arg) ==
+    IF arg = C("text/zinc") \/ [i \in 1..Len(arg) |-> LowerC(arg[i])] = C("zinc") THEN "zinc"
+    ELSE IF arg = C("application/json") \/ [i \in 1..Len(arg) |-> LowerC(arg[i])] = C("json") THEN "json"
+    ELSE "ValueError"
+
 Clause(ev, R) ==
     CASE ev.op = "load_zinc" ->
             (LET r == Result(ZRead(ev.text, FALSE)) IN IF r.ok THEN "" ELSE "spec_rejects_seed_" \o r.why)
@@ -52,6 +58,8 @@ Clause(ev, R) ==
             ELSE IF ev.op = "parse_json" /\ ~TZ!DocEq(ev.outq6, R[ev.i].abs)
                  THEN "parse_differs_" \o TZ!DiffClause(ev.outq6, R[ev.i].abs)
             ELSE ""
+      [] ev.op = "mode" ->      \* mode sanitisation of parse()/dump(): the two constants, or zinc / json in any letter case
+            IF ev.fmt # ModeOf(ev.text) THEN "mode_sanitisation" ELSE ""
       [] ev.op = "norm" ->      \* N(d) = dump(parse(d)): N(N(d)) = N(d), character for character
             IF ev.t1 # ev.t2 THEN "normalise_not_idempotent" ELSE ""
       [] OTHER -> "unknown_event"
